@@ -2,6 +2,7 @@
 package c04
 
 import (
+	"verif/gm"
 	"context"
 	"fmt"
 	"regexp"
@@ -27,6 +28,7 @@ type Case struct {
 	Mode    int    `json:"mode"`    // migrate.PlanMode: 0 unset, 1 in-place, 2 deferred, 3 dump
 	Multi   bool   `json:"multi"`   // a second, two-column FK per edge (random tier)
 	Split   bool   `json:"split,omitempty"` // tables live in two schemas (table i in schema i%2) and tables 2k, 2k+1 share the name t<k>: plans are made from a realm diff and carry schema-qualified names
+	Flavour string `json:"flavour,omitempty"` // MySQL family: "" = mysql.DefaultPlan; mysql8 | mysql57 | maria | tidb = the planner of a driver opened against that server
 	Names   int    `json:"names"`   // 0: FK named after its edge (a re-pointed FK is drop+add); 1: named after its table and slot (the n-th FK of a table keeps its name when it points elsewhere: ModifyForeignKey)
 }
 
@@ -282,6 +284,13 @@ func checkCase(c Case) (Outcome, error) {
 	from := build(c, c.fromTables(), c.FromE)
 	to := build(c, c.toTables(), c.ToE)
 	differ, planner := planners(c.Dialect)
+	if c.Dialect == "mysql" && c.Flavour != "" {
+		drv, err := gm.OpenMySQL(c.Flavour)
+		if err != nil {
+			return out, fmt.Errorf("harness: %v", err)
+		}
+		differ, planner = drv, drv
+	}
 	var (
 		changes []schema.Change
 		err     error
